@@ -133,37 +133,93 @@ def r13_2(ctx: Ctx) -> None:
     except OutsideFragment as err:
         ctx.cannot("R13.2", CP, ret, "hsp_overlap_size", "kernel", str(err))
     # greedy filter shapes
-    func = ctx.fn(REF, "_remove_overlapping")
-    loops = [n for n in walk_local(func) if isinstance(n, ast.For)]
-    tests = [n for n in walk_local(func) if isinstance(n, ast.If) and "maxoverlap" in txt(n.test)]
-    ok = len(tests) == 1
+    _greedy_filter(ctx)
+
+
+def _greedy_filter(ctx: Ctx) -> None:
+    from ..flow import inline_reaching, path_facts
+    qual = "_remove_overlapping"
+    func = ctx.fn(REF, qual)
+    cfg = CFG(func)
+    if len(func.args.args) < 2:
+        raise AnalysisError(f"{qual}: unexpected signature")
+    hits, lengths = func.args.args[0].arg, func.args.args[1].arg
+    loops = [n for n in walk_local(func) if isinstance(n, ast.For) and isinstance(n.target, ast.Name) and hits in txt(n.iter)]
+    rets = [r for r in walk_local(func) if isinstance(r, ast.Return) and isinstance(r.value, ast.Name)]
+    if len(loops) != 1 or len(rets) != 1:
+        raise AnalysisError(f"{qual}: the loop over the hits / the returned list was not found")
+    loop, kept_list = loops[0], rets[0].value.id
+    cur = loop.target.id
+    prev_names = {t.id for n in walk_local(loop) if isinstance(n, ast.Assign) and txt(n.value) == f"{kept_list}[-1]"
+                  for t in n.targets if isinstance(t, ast.Name)}
+    margin_names = {t.id for n in walk_local(loop) if isinstance(n, ast.Assign) for t in n.targets if isinstance(t, ast.Name)
+                    and any(isinstance(x, ast.Name) and x.id == lengths for x in ast.walk(n.value))}
+    prev = sorted(prev_names)[0] if len(prev_names) == 1 else None
+    margin = sorted(margin_names)[0] if len(margin_names) == 1 else None
+    ctx.ob("R13.2", REF, loop, qual, "previous is the last kept", prev is not None and
+           [txt(v) for v in bound_from(func, prev)] == [f"{kept_list}[-1]"],
+           "each hit is compared with the last hit kept so far", form=str(sorted(prev_names)))
+    if prev is None or margin is None:
+        ctx.cannot("R13.2", REF, loop, qual, "greedy filter", "the previous-hit local or the margin local was not found")
+        return
+    keep = {prev, margin, cur}
+    mapping = {f"{cur}.query_start": "c_s", f"{prev}.query_end": "p_e", margin: "M",
+               f"{cur}.bitscore": "B_c", f"{prev}.bitscore": "B_p"}
+
+    def condition(node: ast.AST) -> ast.AST:
+        terms = []
+        for expr, truth in path_facts(cfg, node, fresh_only=True):
+            if not any(isinstance(a, ast.For) and a is loop for a in _ancestors(expr)):
+                continue
+            full = inline_reaching(cfg, expr, expr, keep=keep)
+            terms.append(full if truth else ast.UnaryOp(op=ast.Not(), operand=full))
+        if not terms:
+            return ast.Constant(value=True)
+        return terms[0] if len(terms) == 1 else ast.BoolOp(op=ast.And(), values=terms)
+    appends = [c for c in calls(loop) if txt(c.func) == f"{kept_list}.append" and c.args and txt(c.args[0]) == cur]
+    replaces = [n for n in walk_local(loop) if isinstance(n, ast.Assign) and txt(n.targets[0]) == f"{kept_list}[-1]"
+                and txt(n.value) == cur]
+    other_writes = [n for n in walk_local(loop) if (isinstance(n, ast.Call) and isinstance(n.func, ast.Attribute)
+                                                    and txt(n.func.value) == kept_list and n not in appends
+                                                    and n.func.attr not in ("copy",))
+                    or (isinstance(n, ast.Assign) and any(txt(t).startswith(kept_list + "[") for t in n.targets) and n not in replaces)]
+    ok = len(appends) == 1 and len(replaces) == 1 and not other_writes
     form = ""
     if ok:
-        t = tests[0]
-        mapping3 = {"result.query_start": "c_s", "previous.query_end": "p_e", "maxoverlap": "M"}
-        form = txt(rename(t.test, mapping3))
         try:
-            # appended (kept alongside previous) in the else arm  <=>  p_e - c_s <= M
-            okk, cex, _ = decide(ast.UnaryOp(op=ast.Not(), operand=rename(t.test, mapping3)), parse("p_e - c_s <= M"))
-        except OutsideFragment:
-            okk = False
-        keeps = [c for s in t.orelse for c in calls(s) if txt(c.func) == "non_overlapping.append" and txt(c.args[0]) == "result"]
-        repl = [n for n in walk_local(t) if isinstance(n, ast.If) and n is not t]
-        okr = len(repl) == 1 and txt(repl[0].test) in ("result.bitscore > previous.bitscore", "previous.bitscore < result.bitscore") \
-            and any(isinstance(s, ast.Assign) and txt(s.targets[0]) == "non_overlapping[-1]" and txt(s.value) == "result" for s in repl[0].body)
-        ok = okk and bool(keeps) and okr
-    ctx.ob("R13.2", REF, tests[0] if tests else func, "_remove_overlapping", "kept => overlap <= margin", ok,
-           "a hit is kept next to the previous one only if they overlap by at most the margin; otherwise it replaces the "
-           "previous one only on a strictly better score", form=form)
-    margin = [txt(v) for v in bound_from(func, "maxoverlap")]
-    ok = len(margin) == 1 and margin[0].replace(" ", "") in (
-        "0.2*max([hmm_lengths[result.hit_id],hmm_lengths[previous.hit_id]])",
-        "0.2*max(hmm_lengths[result.hit_id],hmm_lengths[previous.hit_id])")
-    ctx.ob("R13.2", REF, func, "_remove_overlapping", "margin", ok, "the margin is 20% of the longer of the two profiles", form=str(margin))
-    prev = [txt(v) for v in bound_from(func, "previous")]
-    ctx.ob("R13.2", REF, func, "_remove_overlapping", "previous is the last kept", prev == ["non_overlapping[-1]"],
-           "each hit is compared with the last hit kept so far", form=str(prev))
-    _ = loops
+            keep_cond = rename(condition(appends[0]), mapping)
+            repl_cond = rename(condition(replaces[0]), mapping)
+            ok1, cex1, _ = decide(keep_cond, parse("p_e - c_s <= M"))
+            ok2, cex2, _ = decide(repl_cond, parse("p_e - c_s > M and B_c > B_p"))
+            ok = ok1 and ok2
+            form = f"kept when {txt(keep_cond)}; replaces when {txt(repl_cond)}" + \
+                (f"; differs at {cex1 or cex2}" if not ok else "")
+        except OutsideFragment as err:
+            ctx.cannot("R13.2", REF, loop, qual, "kept => overlap <= margin", str(err))
+            ok = None  # type: ignore[assignment]
+    if ok is not None:
+        ctx.ob("R13.2", REF, appends[0] if appends else loop, qual, "kept => overlap <= margin", bool(ok),
+               "a hit is kept next to the previous one only if they overlap by at most the margin; otherwise it replaces the "
+               "previous one only on a strictly better score", form=form)
+    values = bound_from(func, margin)
+    ok = False
+    if len(values) == 1 and isinstance(values[0], ast.BinOp) and isinstance(values[0].op, ast.Mult):
+        sides = [values[0].left, values[0].right]
+        consts = [x for x in sides if isinstance(x, ast.Constant)]
+        maxes = [x for x in sides if isinstance(x, ast.Call) and call_name(x) == "max"]
+        if len(consts) == 1 and consts[0].value == 0.2 and len(maxes) == 1:
+            args = maxes[0].args[0].elts if len(maxes[0].args) == 1 and isinstance(maxes[0].args[0], (ast.List, ast.Tuple)) \
+                else maxes[0].args
+            ok = sorted(txt(a) for a in args) == sorted([f"{lengths}[{cur}.hit_id]", f"{lengths}[{prev}.hit_id]"])
+    ctx.ob("R13.2", REF, func, qual, "margin", ok, "the margin is 20% of the longer of the two profiles",
+           form=str([txt(v) for v in values]))
+
+
+def _ancestors(node: ast.AST):
+    cur = getattr(node, "_parent", None)
+    while cur is not None:
+        yield cur
+        cur = getattr(cur, "_parent", None)
 
 
 def r13_4_5(ctx: Ctx) -> None:
